@@ -66,6 +66,29 @@ var mutOps = []mutOp{
 	{"C19", "C19.R1", "eval/eval.go", `oerr := s\.env\.Set\(name\.Literal\(\), fn\)`, "oerr := s.env.SetNoChecks(name.Literal(), fn, false)", "function definition bypasses the constant check"},
 	{"C20", "C20.R3", "trie/trie.go", `(?s)if char > t\.max \{\s+t\.max = char\s+\}`, "", "max bound not maintained"},
 	{"C20", "C20.R1", "trie/trie.go", `(?s)default:\s+// Existing interior node[^\n]*\n\s+if i == l-1 \{\s+t\.children\[char\]\.valid = true\s+\}`, "default:", "interior node not marked"},
+	// rules added after the seeded rounds
+	{"C01", "C01.R6", "eval/eval.go", `(?s)if buf\.Len\(\) > 0 \{\s+output = buf\.Bytes\(\)\s+_, err := s\.Out\.Write\(output\)`, "if buf.Len() > 0 {\n\t\toutput = buf.Bytes()\n\t\t_, err := bytes.NewBuffer(nil).Write(output)", "captured output written to a writer that is not the restored one"},
+	{"C02", "C02.R6", "parser/parser.go", `(?s)// nil return value\s+return stmt`, "// nil return value\n\t\tp.nextToken()\n\t\treturn stmt", "bare return shifts a token"},
+	{"C02", "C02.R7", "ast/ast.go", `p\.Right\.PrettyPrint\(out\)\n\tout\.ExpressionPrecedence = oldPrecedence\n`, "p.Right.PrettyPrint(out)\n\t_ = oldPrecedence\n", "prefix printer does not restore the enclosing precedence"},
+	{"C04", "C04.R2", "eval/eval.go", `(?s)if cantCache \{\s+s\.env\.TriggerNoCache\(\)\s+\}\s+return res\s+\}\s+// Don't cache errors`, "_ = cantCache\n\t\treturn res\n\t}\n\t// Don't cache errors", "cantCache no longer propagated"},
+	{"C05", "C05.R8", "eval/eval.go", `if name != "" && !s\.NoReg && s\.env\.HasRegisters\(\) && !object\.Constant\(name\) \{`, `if name != "" && !s.NoReg && !object.Constant(name) {`, "register released although none may have been acquired"},
+	{"C06", "C06.R3", "eval/eval.go", `rightArr := object\.Elements\(right\)\n`, "rightArr := object.Elements(right)\n\t\tif len(rightArr) == 0 {\n\t\t\treturn left\n\t\t}\n", "a + [] returns a"},
+	{"C06", "C06.R4", "eval/eval.go", `(?s)for i, e := range elements \{\s+elements\[i\] = object\.Value\(e\)[^\n]*\n\s+\}\n`, "", "array literal keeps references"},
+	{"C07", "C07.R9", "object/object.go", `if nl > MaxSmallMap \{\n\t\treturn &BigMap\{kv: m\.kv\[1:\]\}`, "if nl > MaxSmallMap+1 {\n\t\treturn &BigMap{kv: m.kv[1:]}", "small-map threshold off by one"},
+	{"C07", "C07.R10", "eval/eval.go", `if idx < 0 \|\| idx > maxV \{`, "if idx < 0 {", "upper bound test removed from array indexing"},
+	{"C08", "C08.R7", "ast/ast.go", `_, _ = ps\.Out\.Write\(\[\]byte\(strings\.Repeat\("\\t", ps\.IndentLevel-1\)\)\)`, "_, _ = ps.Out.Write([]byte(\"\\t\\t\\t\\t\\t\\t\\t\\t\"[:ps.IndentLevel-1]))", "indentation sliced from a fixed string"},
+	{"C09", "C09.R6", "object/memory.go", `gomemlimit := debug\.SetMemoryLimit\(-1\)`, "gomemlimit := debug.SetMemoryLimit(-1)\n\tgomemlimit = int64(1) << 62", "memory limit queried but not used"},
+	{"C09", "C09.R7", "eval/eval_api.go", `evalState\.Context = ctx\n`, "_ = ctx\n", "blank state no longer inherits the deadline"},
+	{"C10", "C10.R4", "eval/eval_api.go", `s\.env = s\.rootEnv\n\ts\.depth = 0`, "for s.env.StackParent() != nil {\n\t\ts.env = s.env.StackParent()\n\t}\n\ts.depth = 0", "Reset derives the scope from the current one"},
+	{"C10", "C10.R5", "eval/eval_api.go", `s\.PipeVal = nil\n\}`, "s.PipeVal = nil\n\ts.macroState = object.NewMacroEnvironment()\n}", "Reset drops the macro store"},
+	{"C12", "C12.R1", "object/object.go", `func CompareKeys\(a, b keyValuePair\) int \{\n`, "func CompareKeys(a, b keyValuePair) int {\n\tif a.Key == b.Key {\n\t\treturn 0\n\t}\n", "CompareKeys has a path that is not Cmp"},
+	{"C13", "C13.R7", "eval/macro_expension.go", `/\* not always incrementing \*/ \{`, "i++ {", "index advanced after a removal"},
+	{"C13", "C13.R8", "ast/modify.go", `newNode := &ArrayLiteral\{Base: node\.Base, Elements:`, "newNode := &ArrayLiteral{Elements:", "Base dropped from the rebuilt array literal"},
+	{"C14", "C14.R5", "repl/repl.go", `\tscanner\.Buffer\(nil, math\.MaxInt\)[^\n]*\n`, "\t_ = math.MaxInt\n", "line limit back to bufio's default"},
+	{"C16", "C16.R3", "token/token.go", `\tinterning\[\*t\] = t\n`, "\tif len(interning) > 1<<16 {\n\t\tResetInterning()\n\t}\n\tinterning[*t] = t\n", "interning table reset while lexing"},
+	{"C18", "C18.R4", "eval/eval_api.go", `func \(s \*State\) SaveGlobals\(w io\.Writer\) \(int, error\) \{\n\treturn s\.env\.SaveGlobals\(w, s\.MaxValueLen\)`, "func (s *State) SaveGlobals(w io.Writer) (n int, err error) {\n\tdefer func() { err = nil }()\n\treturn s.env.SaveGlobals(w, s.MaxValueLen)", "deferred closure masks the write error"},
+	{"C19", "C19.R2", "object/state.go", `\t\t\treturn old\n\t\t\}\n\t\}\n\tif IsExtraFunction`, "\t\t}\n\t}\n\tif IsExtraFunction", "an equal value overwrites the constant again"},
+	{"C20", "C20.R6", "trie/trie.go", `if t\.leaf \{\n\t\treturn longest, res`, "if t.max == 0 {\n\t\treturn longest, res", "early return on max == 0"},
 }
 
 func copyTree(src, dst string) error {
